@@ -294,8 +294,115 @@ class SqlSite:
         return self.fn.loc()
 
 
+def _chain(f, local, kinds=("ref", "use", "cast", "tuple", "array")):
+    """locals reached backwards from `local` through copies / references / aggregates"""
+    seen, todo = set(), [local]
+    while todo:
+        l = todo.pop()
+        if l in seen:
+            continue
+        seen.add(l)
+        for bb, kind, x in f.defs().get(l, []):
+            if kind == "stmt" and x.get("k") in kinds:
+                for o in x.get("o", []):
+                    if "p" in o:
+                        todo.append(o["p"][0])
+    return seen
+
+
+def resolve_strs(f, local, depth=0):
+    """the finite set of string constants a local can hold: constants, copies, elements of a constant array iterated by a `for`
+    loop (into_iter / iter + next).  None when anything else can flow in."""
+    if depth > 40:
+        return None
+    out = set()
+    defs = f.defs().get(local, [])
+    if not defs:
+        return None
+    for bb, kind, x in defs:
+        if kind == "stmt":
+            k = x.get("k")
+            if k in ("use", "ref", "cast", "tuple", "array"):
+                for o in x.get("o", []):
+                    if "c" in o:
+                        if "str" in o["c"]:
+                            out.add(o["c"]["str"])
+                        else:
+                            return None
+                    else:
+                        r = resolve_strs(f, o["p"][0], depth + 1)
+                        if r is None:
+                            return None
+                        out |= r
+            else:
+                return None
+        else:
+            c = x
+            if c.dst and c.dst[0] != local:
+                continue      # `&mut` side effect of a call on an iterator: not a new value
+            if c.name in ("next", "into_iter", "iter", "copied", "cloned", "deref", "as_str", "clone", "borrow", "as_ref") and c.krate in ("core", "alloc", "std") and c.args and "p" in c.args[0]:
+                r = resolve_strs(f, c.args[0]["p"][0], depth + 1)
+                if r is None:
+                    return None
+                out |= r
+            else:
+                return None
+    return out
+
+
+def dynamic_sites(f):
+    """SQL built with format!("... {} ...", x) where x ranges over a finite set of string constants: one statement per value"""
+    out = []
+    for c in f.calls():
+        if not (c.name == "new" and last_seg_(c.self_adt) == "Arguments" and len(c.args) == 2 and all("p" in a for a in c.args)):
+            continue
+        tmpl = None
+        for l in _chain(f, c.args[0]["p"][0]):
+            for bb, kind, x in f.defs().get(l, []):
+                if kind == "stmt":
+                    for o in x.get("o", []):
+                        if "c" in o and "bytes" in o["c"]:
+                            tmpl = o["c"]["bytes"]
+        if tmpl is None:
+            continue
+        pieces, holes, i = [], 0, 0
+        cur = ""
+        while i < len(tmpl):
+            n = ord(tmpl[i])
+            if 0 < n < 0x80 and i + 1 + n <= len(tmpl):
+                cur += tmpl[i + 1:i + 1 + n]
+                i += 1 + n
+            elif n == 0:
+                break
+            else:
+                # a placeholder opcode (plus its one-byte operand): close the current literal piece
+                pieces.append(cur)
+                cur = ""
+                holes += 1
+                i += 1
+        pieces.append(cur)
+        if holes != 1 or len(pieces) != 2 or not SQL_START.match(pieces[0]):
+            continue
+        # the single argument: Argument::new_display(&x) stored in the args array
+        vals = None
+        for l in _chain(f, c.args[1]["p"][0]):
+            for bb, kind, x in f.defs().get(l, []):
+                if kind == "call" and x.name in ("new_display",) and x.args and "p" in x.args[0] and x.dst and x.dst[0] == l:
+                    vals = resolve_strs(f, x.args[0]["p"][0])
+        if not vals:
+            continue
+        for v in sorted(vals):
+            text = pieces[0] + v + pieces[1]
+            out.append(SqlSite(f, c.bb, text, Stmt(text)))
+    return out
+
+
+def last_seg_(p):
+    return (p or "").split("<")[0].split("::")[-1]
+
+
 def collect(prog, crate="mdk_sqlite_storage"):
-    """every SQL-looking string constant in non-test code of the crate -> SqlSite"""
+    """every SQL-looking string constant in non-test code of the crate -> SqlSite (plus SQL formatted from a constant table list)"""
     out = []
     for f in prog.nontest_fns((crate,)):
         seen = set()
@@ -303,6 +410,7 @@ def collect(prog, crate="mdk_sqlite_storage"):
             if SQL_START.match(s) and (bb, s) not in seen:
                 seen.add((bb, s))
                 out.append(SqlSite(f, bb, s, Stmt(s)))
+        out.extend(dynamic_sites(f))
     return out
 
 
